@@ -58,6 +58,7 @@ func C14(c *core.Ctx) {
 	p := c.P
 	c14Round4(c)
 	c14DecimalTextLimit(c)
+	c14ArrayIndexedByOctet(c)
 	// ---- R14.9 (shared with C15 R15.4) containers keyed by a string form of a name use one
 	// form for insert, find and remove: two forms that disagree for some component types
 	// give the container a notion of name identity different from Name.Equal
@@ -1083,4 +1084,78 @@ func c14DecimalTextLimit(c *core.Ctx) {
 		}
 	})
 	c.Decide(bad == "", "R14.11", "decimal-text-limit-admits-twenty-digits", p.Pos(fn.Pos()), fmt.Sprintf("%d length limit(s) on the decimal text, none below twenty digits", n), "compValFmtDec.FromString refuses decimal texts at "+bad+": 2^64-1 has twenty digits — seg / off / v / t / seq components with values of 10^19 and more are printed by String but no longer parse back")
+}
+
+// c14ArrayIndexedByOctet — R14.12 "parsing never panics on any string": a fixed-size table
+// (an array of N < 256 elements, e.g. a [128]int8 of ASCII digit values) indexed by an octet
+// of the input is indexed only behind a test that the octet is below N. An octet ≥ 0x80 —
+// any non-ASCII text in a URI — indexes past a 128-entry table and panics.
+func c14ArrayIndexedByOctet(c *core.Ctx) {
+	p := c.P
+	n, bad := 0, ""
+	for _, fn := range p.FuncsIn(core.ModPath + "/std/encoding") {
+		if strings.HasSuffix(p.File(fn.Pos()), "_test.go") || strings.HasPrefix(filepathBase(p.File(fn.Pos())), "zz_generated") {
+			continue
+		}
+		core.Instrs(fn, func(in ssa.Instruction) {
+			var cont, idx ssa.Value
+			switch x := in.(type) {
+			case *ssa.IndexAddr:
+				cont, idx = x.X, x.Index
+			case *ssa.Index:
+				cont, idx = x.X, x.Index
+			default:
+				return
+			}
+			arr, isArr := core.Deref(cont.Type()).Underlying().(*types.Array)
+			if !isArr || arr.Len() >= 256 {
+				return
+			}
+			iv := core.StripConv(idx)
+			bt, isB := iv.Type().Underlying().(*types.Basic)
+			if !isB || bt.Kind() != types.Uint8 {
+				return
+			}
+			if _, isK := core.ConstInt(iv); isK {
+				return
+			}
+			n++
+			N := arr.Len()
+			below := &core.Atom{Name: "octet < N", Match: func(cond ssa.Value) (int, int) {
+				op, x, y, ok := core.Cmp(cond)
+				if !ok || core.StripConv(x) != iv {
+					return 0, 0
+				}
+				k, isK := core.ConstInt(y)
+				if !isK {
+					return 0, 0
+				}
+				switch {
+				case op == token.LSS && k <= N, op == token.LEQ && k < N:
+					return 1, -1
+				case op == token.GEQ && k <= N, op == token.GTR && k < N:
+					return -1, 1
+				}
+				return 0, 0
+			}}
+			// a masked index (b & 0x7f) cannot exceed the mask
+			if b, isBin := iv.(*ssa.BinOp); isBin && b.Op == token.AND {
+				if k, isK := core.ConstInt(b.Y); isK && k < N {
+					return
+				}
+			}
+			g := core.Gate(fn, []ssa.Instruction{in}, core.Lit{A: below, Want: true})
+			if !(g.OK && g.PassEdges > 0) {
+				bad = fmt.Sprintf("%s at %s ([%d] indexed by an octet)", core.FuncName(fn), c.Pos(in), N)
+			}
+		})
+	}
+	c.Decide(bad == "", "R14.12", "table-indexed-by-an-octet-is-guarded", "-", fmt.Sprintf("%d tables of fewer than 256 entries indexed by an octet, each behind a test that the octet is below the table's size", n), "a table is indexed by an octet of the input without a test that the octet is below its size ("+bad+"): a byte ≥ the size — any non-ASCII character of a URI — panics with index out of range; parsing must never panic on any string")
+}
+
+func filepathBase(s string) string {
+	if i := strings.LastIndexByte(s, '/'); i >= 0 {
+		return s[i+1:]
+	}
+	return s
 }
